@@ -14,7 +14,7 @@ from __future__ import annotations
 
 from vfw.gen.corpus import rng
 
-VERSION = 2
+VERSION = 3
 CONTEXT = {"v1": "tbl", "v2": 3, "flag_t": True, "flag_f": False, "lst": [1, 2, 3], "s_empty": ""}
 
 LITERALS = [
@@ -27,12 +27,12 @@ EXPRS = [
     ("v1", None), ("v2", None), ("v2 + 1", None), ("v1 | upper", None), ("lst[0]", None), ("''", None),
     ("s_empty", None), ("'a' ~ v1", None), ("lst | length", None), ("v1[:2]", None), ("flag_t", None),
     ("undef_x", "undefined_output"), ("undef_y.attr", "undefined_output"), ("v1 if flag_f else 'z'", None),
-    ("undef_z | default('dflt')", "undefined_output"), ("lst | join(', ')", None),
+    ("undef_z | default('dflt')", "undefined_with_default"), ("lst | join(', ')", None),
 ]
 CONDS = [
     ("flag_t", None), ("flag_f", None), ("not flag_t", None), ("v2 > 2", None), ("v2 > 5", None), ("true", None),
     ("false", None), ("lst", None), ("undef_c", "undefined_in_condition"), ("not undef_d", "undefined_in_condition"),
-    ("v1 == 'tbl'", None), ("flag_t and flag_f", None), ("undef_e is defined", None), ("s_empty", None),
+    ("v1 == 'tbl'", None), ("flag_t and flag_f", None), ("undef_e is defined", "undefined_in_condition"), ("s_empty", None),
 ]
 ITERS = [
     ("lst", None), ("range(2)", None), ("[]", "empty_loop"), ("[1]", None), ("range(v2)", None), ("['x', 'y']", None),
@@ -213,6 +213,19 @@ def gen(idx: int, flavour: str = "hostile") -> dict:
             if feat:
                 g.feats.add(feat)
             parts.append(r.choice(["\n", " "]) + g.tag(f"if {c}") + r.choice(["where a=1", "WHERE b >2", "where  c = {{ v2 }}"]) + (g.tag("else") + "where 1=1" if r.random() < 0.3 else "") + g.tag("endif"))
+        if r.random() < 0.35:
+            # template comments at line ends / between tokens, with stray whitespace
+            g.feats.add("comment")
+            cm = r.choice(["{# note #}", "{#- trimmed -#}", "{# a\nb #}", "{#x#}"])
+            pos = r.choice(["eol_ws", "eol", "inline", "own_line"])
+            if pos == "eol_ws":
+                parts.append(" " + cm + r.choice(["   ", " ", "\t"]))
+            elif pos == "eol":
+                parts.append(" " + cm)
+            elif pos == "inline":
+                parts.insert(r.randint(2, max(2, len(parts) - 1)), " " + cm + " ")
+            else:
+                parts.append("\n" + cm + r.choice(["", "  "]))
         if r.random() < 0.2:
             parts.insert(0, g.tag("set sv0 = v2") + "\n")
             g.n_set = 1
